@@ -265,7 +265,9 @@ fn cv_forward_sb(e: &'static Engine, workers: usize) {
 /// a waiter is cancelled while it re-acquires the mutex after a notification (cancellation is disabled there):
 /// A and B wait; the notifier sets the predicate and notifies all while holding the mutex, cancels A, lets A work
 /// through the cancel, then unlocks. Nobody may share the mutex afterwards and it must be free at the end.
-fn cv_cancel_during_relock(e: &'static Engine, workers: usize) {
+/// `back_to_back`: the cancel comes when both waiters already sit in the re-lock, and the unlock follows at once: the
+/// wake-up of the cancel and the hand-off of the unlock overlap
+fn cv_cancel_during_relock(e: &'static Engine, workers: usize, back_to_back: bool) {
     static BOTH: AtomicBool = AtomicBool::new(false);
     rt_init(workers);
     let p = Arc::new(Pair { m: Mutex::new(0), cv: Condvar::new() });
@@ -297,9 +299,14 @@ fn cv_cancel_during_relock(e: &'static Engine, workers: usize) {
         let mut g = p.m.lock().unwrap();
         *g = 1;
         p.cv.notify_all();
-        unsafe { a.coroutine().cancel() };
-        // A is woken by the notification and by the cancel while the mutex is still held here
-        e.vsleep(1_000_000);
+        if back_to_back {
+            e.quiesce();
+            unsafe { a.coroutine().cancel() };
+        } else {
+            unsafe { a.coroutine().cancel() };
+            // A is woken by the notification and by the cancel while the mutex is still held here
+            e.vsleep(1_000_000);
+        }
         enter();
         leave();
         drop(g);
@@ -503,7 +510,8 @@ pub fn build(quick: bool) -> Vec<Scenario> {
         v.push(mk_cv(w, &[('C', "W"), ('C', "n")], "", None));
     }
     for w in [1usize, 2] {
-        v.push(Scenario::new("C11", "condvar_cancel_relock", format!("condvar.cancel_during_relock.w{}", w), Arc::new(move |e| cv_cancel_during_relock(e, w))).vt_horizon(50_000_000));
+        v.push(Scenario::new("C11", "condvar_cancel_relock", format!("condvar.cancel_during_relock.w{}", w), Arc::new(move |e| cv_cancel_during_relock(e, w, false))).vt_horizon(50_000_000));
+        v.push(Scenario::new("C11", "condvar_cancel_relock", format!("condvar.cancel_during_relock.unlock_at_once.w{}", w), Arc::new(move |e| cv_cancel_during_relock(e, w, true))).vt_horizon(50_000_000).bound(2));
     }
     for w in [1usize, 2] {
         v.push(Scenario::new("C11", "condvar_store_buffer", format!("condvar.forward.cancel.store_buffer.w{}", w), Arc::new(move |e| cv_forward_sb(e, w))).tso(&["src/sync/blocking.rs"]).bound(2));
